@@ -160,8 +160,16 @@ func VH_C04_LegacyWriter(kind, shape int) {
 	mkMsgs := func() []Message {
 		n := 1 + shape%2
 		msgs := make([]Message, n)
+		// record times: the first message sits off a millisecond boundary, the others follow it by a symbolic
+		// number of nanoseconds (the batch encodes millisecond deltas as varints: their pre-computed and their
+		// written lengths must agree for every distance)
+		base := time.Unix(1, 900000)
 		for i := range msgs {
-			m := Message{Time: time.Unix(1, 0), Value: vhBytes("value", shape%3)}
+			t := base
+			if i > 0 {
+				t = base.Add(time.Duration(vhIntRange("time_distance_ns", 0, 1<<28)))
+			}
+			m := Message{Time: t, Value: vhBytes("value", shape%3)}
 			if shape >= 1 {
 				m.Key = vhBytes("key", shape%2)
 			}
